@@ -21,6 +21,8 @@ fn sub_universe() -> Vec<J> {
 fn universe() -> Vec<J> {
     let mut u = sub_universe();
     u.extend(vec![J::int(2), J::str("1"), J::Bool(true), J::Arr(vec![]), J::Bool(false), J::str(""), J::Obj(vec![]), J::float(1.5), J::Arr(vec![J::Arr(vec![J::int(1)])])]);
+    // integers at and above i64::MAX (documents can hold them; equality must stay exact)
+    u.extend(vec![J::int(i64::MAX), J::uint(9223372036854775808), J::uint(18446744073709551614), J::uint(18446744073709551615), J::Arr(vec![J::uint(18446744073709551615)])]);
     u
 }
 fn arrays() -> Vec<Vec<J>> {
@@ -125,9 +127,71 @@ pub fn run(ctx: &Ctx) -> Result<Evidence, String> {
     }
     let first_int_b = bs.len();
     bs.extend(int_arrs.iter().map(|a| J::Arr(a.clone())));
+    // family 2b: the same over integers at and above i64::MAX (neighbours that share one f64)
+    let mut big_arrs: Vec<Vec<J>> = vec![vec![]];
+    {
+        let bigs = [J::int(i64::MAX), J::uint(9223372036854775808), J::uint(18446744073709551614), J::uint(18446744073709551615)];
+        let mut layer: Vec<Vec<J>> = vec![vec![]];
+        for _ in 0..3 {
+            let mut next = vec![];
+            for a in &layer {
+                for e in &bigs {
+                    let mut b = a.clone();
+                    b.push(e.clone());
+                    next.push(b);
+                }
+            }
+            big_arrs.extend(next.iter().cloned());
+            layer = next;
+        }
+        // and nested in elements
+        big_arrs.push(vec![J::Arr(vec![J::uint(18446744073709551614)]), J::Obj(vec![("k".into(), J::uint(9223372036854775808))])]);
+        big_arrs.push(vec![J::Arr(vec![J::uint(18446744073709551615)]), J::Obj(vec![("k".into(), J::int(i64::MAX))])]);
+    }
+    let first_big_b = bs.len();
+    bs.extend(big_arrs.iter().map(|a| J::Arr(a.clone())));
+    // third family: arrays of 4..100 elements (hashed / sorted / chunked look-ups) whose only
+    // common element, if any, is a pair of equal floats with different spellings (-0.0 / 0.0),
+    // at the top level or nested in an array / object element
+    let twin = |kind: usize, neg: bool| -> Option<J> {
+        let z = J::float(if neg { -0.0 } else { 0.0 });
+        match kind {
+            0 => None,
+            1 => Some(z),
+            2 => Some(J::Arr(vec![J::str("s1"), z])),
+            _ => Some(J::Obj(vec![("k".into(), z), ("m".into(), J::float(2.5))])),
+        }
+    };
+    let mut large_a: Vec<Vec<J>> = vec![];
+    for &la in &[4usize, 8, 12, 20, 33] {
+        for kind in 0..4 {
+            for neg in [true, false] {
+                let mut a: Vec<J> = (0..la - 1).map(|i| J::str(&format!("a{}", i))).collect();
+                if let Some(t) = twin(kind, neg) {
+                    a.insert(la / 2, t);
+                } else {
+                    a.push(J::float(7.25));
+                }
+                large_a.push(a);
+            }
+        }
+    }
+    let first_large_b = bs.len();
+    for &lb in &[16usize, 20, 32, 40, 64, 100] {
+        for kind in 0..4 {
+            for neg in [true, false] {
+                for pos in [0usize, lb / 2, lb - 1] {
+                    let mut b: Vec<J> = (0..lb - 1).map(|i| if i % 7 == 3 { J::float(i as f64 + 0.5) } else { J::str(&format!("b{}", i)) }).collect();
+                    b.insert(pos, twin(kind, neg).unwrap_or(J::float(9.75)));
+                    bs.push(J::Arr(b));
+                }
+            }
+        }
+    }
+    let n_large_b = bs.len() - first_large_b;
     let n_array_bs = bs.len();
     bs.extend(vec![J::int(1), J::str("a"), J::Null, J::Obj(vec![("k".into(), J::int(1))]), J::Bool(true)]);
-    let docs: Vec<Doc> = bs.iter().enumerate().map(|(i, b)| Doc::new(&doc_for(b, if i >= first_int_b && i < first_int_b + int_arrs.len() { &int_arrs } else { &arrs }))).collect();
+    let docs: Vec<Doc> = bs.iter().enumerate().map(|(i, b)| Doc::new(&doc_for(b, if i >= first_big_b && i < first_big_b + big_arrs.len() { &big_arrs } else if i >= first_large_b && i < first_large_b + n_large_b { &large_a } else if i >= first_int_b && i < first_int_b + int_arrs.len() { &int_arrs } else { &arrs }))).collect();
     let tm = templates();
     let total = docs.len() * tm.len();
 
@@ -185,7 +249,11 @@ pub fn run(ctx: &Ctx) -> Result<Evidence, String> {
             }
         }
         // H4 events
-        if verdict == Verdict::Held && i % 3 == 0 {
+        // (the hook reports an integer above i64::MAX as the float the engine's accessors give:
+        // the beyond-i64 family is judged at the boundary only; the X list of every document
+        // holds such integers too, so events that carry one are skipped)
+        let in_big_family = { let di = i / tm.len(); di >= first_big_b && di < first_big_b + big_arrs.len() };
+        if verdict == Verdict::Held && i % 3 == 0 && !in_big_family {
             let (_, events) = with_events(|| libapi::query_with_path(text, &doc.value));
             for e in events {
                 if let Event::Func { name, args, result } = e {
